@@ -1,4 +1,5 @@
 """C15 — emergency pause is bounded."""
+from props import authlib as A
 ID = "C15"
 MANIFEST = {
     "text": ("Kernel-checked theorems over the pause state machine for every operation sequence of any length "
@@ -86,7 +87,50 @@ def suites(rng, tier):
         mal = [gen_malformed(rng, rng.randrange(1, 12)) for _ in range(n_mal)]
         out.append({"suite": "panic", "name": "panic-malformed", "lines": mal,
                     "distribution": {"cases": n_mal}})
+    out.append(instruction_cells(rng, {"quick": 60, "thorough": 2000, "search": 300}[tier]))
     return out
+
+
+PANIC_IXS = ("panic_pause", "panic_unpause", "panic_unpause_permissionless")
+
+
+def instruction_cells(rng, n_random):
+    """the three pause instructions through the real entry point: global pause flag set / clear, pause started at S, clock at T
+    around the exact expiry second (enumerated) plus random (S, T): the permissionless unpause works iff a pause is set
+    and has run out; the admin's unpause never fails while the flag is set"""
+    lines = []
+    combos = [(1000, 999), (1000, 1000), (1000, 2799), (1000, 2800), (1000, 2801), (0, 1800), (0, 1799), (5, 100000)]
+    for _ in range(n_random):
+        S = rng.randrange(0, 5000)
+        combos.append((S, S + rng.choice([0, 1, 1799, 1800, 1801, rng.randrange(0, 4000)])))
+    for ix in PANIC_IXS:
+        for S, T in combos:
+            for paused in (1, 0):
+                c = A.with_tweak(A.base(ix), f"fspause:{paused}:{S}:1:1")
+                lines.append(A.line(c, t=T) + f" k=panic S={S} T={T} p={paused}")
+    return {"suite": "auth", "name": "pause-instructions-timing", "lines": lines, "impl_only": True,
+            "distribution": {"instructions": list(PANIC_IXS), "cells": len(lines),
+                             "note": "implementation only (the handler bodies around PanicState are glue: the state machine itself is modelled and corresponded at level A); the oracle evaluates the property on the real outcome"}}
+
+
+def kvs(l):
+    return dict(t.split("=", 1) for t in l.split()[1:] if "=" in t)
+
+
+def oracle_cells(case, impl):
+    k = kvs(case)
+    ix, S, T, paused = k["ix"], int(k["S"]), int(k["T"]), k["p"] == "1"
+    ok = impl.startswith("OK")
+    if ix == "panic_unpause_permissionless":
+        if ok and not (paused and T - S >= 1800):
+            return {"key": "permissionless-unpause-before-expiry",
+                    "what": f"panic_unpause_permissionless succeeded {T - S}s after the pause start (flag set: {paused})"}
+        if not ok and paused and T - S >= 1800:
+            return {"key": "expired-pause-cannot-be-cleared",
+                    "what": f"panic_unpause_permissionless refused ({impl[:40]}) {T - S}s after the pause start"}
+    if ix == "panic_unpause" and paused and not ok:
+        return {"key": "unpause-failed-while-paused", "what": f"panic_unpause by the global fee admin failed although the pause flag is set: {impl[:40]}"}
+    return None
 
 
 def parse(case, impl):
@@ -102,6 +146,8 @@ def parse(case, impl):
 
 
 def nontrivial(suite, case, impl):
+    if suite == "auth":
+        return impl.startswith(("OK", "B "))
     if not case.startswith("0 0 0 0 0 "):
         return False
     try:
@@ -119,6 +165,8 @@ def until(st, now):
 
 def oracle(suite, case, impl):
     """Evaluate C15 directly on the implementation trace (valid stream only)."""
+    if suite == "auth":
+        return oracle_cells(case, impl)
     if not case.startswith("0 0 0 0 0 "):
         return None
     if impl.startswith("PANIC") or impl.startswith("DRIVER"):
